@@ -81,8 +81,15 @@ def run_field(prop: str, field: str, tier: str, seed: int, rule: str, *, filt=No
             continue
         if v not in ("ok", "n/a"):
             vio.append(violation(x, v, "native-trace", prop))
+    # an IR node the machine does not know makes a kernel unjudgeable there (its native runs are still judged): say so
+    unsupported = [x for x in recs if x.get("status") == "unsupported-node"]
+    if unsupported:
+        kernels_ = sorted({(x["text"], str(x["formats"])) for x in unsupported})
+        print(f"NOTE property={prop} spec/IRMachine.tla cannot execute {len(kernels_)} kernel(s) (unsupported IR node): they are judged "
+              f"by their native runs only. First: {kernels_[0][0]} {kernels_[0][1]}")
     return {"r": r, "recs": recs, "traces": traces, "violations": vio, "inconclusive": inconclusive,
-            "coverage": coverage(r, recs, traces, rule, {"inconclusive": inconclusive}), "assumptions": ASSUMPTIONS}
+            "coverage": coverage(r, recs, traces, rule, {"inconclusive": inconclusive, "unsupported_node_behaviours": len(unsupported)}),
+            "assumptions": ASSUMPTIONS}
 
 
 def replay(data: dict) -> dict:
